@@ -17,3 +17,17 @@ pub fn emit(tag: &'static str) {
 pub fn take() -> Vec<&'static str> {
   LOG.with(|l| std::mem::take(&mut *l.borrow_mut()))
 }
+
+thread_local! {
+  static RNG_FAULT: std::cell::Cell<bool> = const { std::cell::Cell::new(false) };
+}
+
+/// Fault injection: while armed, `Key::try_new_random` on the calling thread fails as if the system RNG had failed
+pub fn set_rng_fault(armed: bool) {
+  RNG_FAULT.with(|f| f.set(armed));
+}
+
+/// Is the RNG fault armed on the calling thread?
+pub fn rng_fault() -> bool {
+  RNG_FAULT.with(|f| f.get())
+}
